@@ -17,6 +17,18 @@ class Conc:
         return self.getter()
 
 
+class MapOf:
+    """Result shape of a function returning a mapping with statically known (live object) keys,
+    e.g. ParsedDataMap: keys() -> list of live objects, shapes aligned with it."""
+
+    def __init__(self, keys_getter, shapes):
+        self.keys_getter = keys_getter
+        self.shapes = list(shapes)
+
+    def items(self):
+        return list(zip(self.keys_getter(), self.shapes))
+
+
 class LoopSpec:
     def __init__(self, invariants=(), decreases=None, ghost_locals=None):
         self.invariants = [(n, e) for n, e in invariants]
